@@ -335,6 +335,12 @@ def run(ctx):
     for c in flaky:
         impl.update(core.run_impl(c["impl"], env=env))
     t1 = time.time()
+    if any(v.startswith("bad-op(") for v in impl.values()):
+        # the harness does not know the family: hook patch / fam_c32.rs not applied yet
+        return {"evaluations": 0, "distinct_nontrivial": 0, "rule": "hook missing", "samples": [],
+                "traces_validated_against_impl": 0, "disagreements_checked": 0,
+                "findings": [core.Finding("disagreement", {"family": "atomrace", "what": "hook-missing"},
+                                          "the harness answers bad-op to AS/AF/AM/AX: apply notes/hooks/C32-repo.diff to /repo and add notes/hooks/fam_c32.rs to the harness (see notes/design/C32.md)", None)]}
     # model lines need the implementation's trace (scheduled) / nothing (free)
     mlines = []
     for c in cases:
